@@ -3,14 +3,17 @@ import astq
 from rules import decode, genreset, jit, rv64, sshash, x86hsem
 
 LEVEL = 'other'
-TECHNIQUE = 'control-dependence check of the no-op guard in every engine (decoder path enumeration) + definition check of the power-of-two predicate; IR effect check of the reciprocal routine'
+TECHNIQUE = ('control-dependence check of the no-op guard in every engine (decoder path enumeration) + definition check of the power-of-two predicate; IR effect check of the reciprocal routine'
+         '; evaluation of the literal-slot arithmetic of the RVV generator for every literal index; needs / must-set summaries (generator state); symbolic execution of the x86 IMUL_RCP handler')
 CLAIM = ('Decides statically the no-op clause of the property: in the interpreter decoder and in the x86/A64/RV64 emitters every effect of IMUL_RCP (field assignment, emitted code, '
          'last-writer mark) is control-dependent on !isZeroOrPowerOf2(zero-extended imm32) and the no-op arm does nothing. The exactness of randomx_reciprocal / randomx_reciprocal_fast '
          'for all 2^32 divisors is number theory over runtime values and is not claimed (not decidable by a static argument in reach).'
          ' Also: randomx_reciprocal is a pure function of its argument (no store, no mutable global, no call) in the compiled IR (RCP-PURE), so the multiplier cannot depend on history or on other threads.'
-         ' The RV64 vector generator is included in RCP-NOOP / LW-SIB.')
+         ' The RV64 vector generator is included in RCP-NOOP / LW-SIB.'
+         ' The multiplier an IMUL_RCP instruction uses is the reciprocal of its own divisor: on x86 the emitted bytes are `mov rax, reciprocal; imul dst, rax` for every dst (X86-HSEM); in the RVV generator literal n is stored in slot n and the emitted instruction multiplies by slot n for every n below RANDOMX_PROGRAM_MAX_SIZE (RVV-RCPPOOL; this rule found the displacement overflow repaired by b14ff87); the literal counters of all back-ends restart with every program (GEN-RESET).')
 LEVEL_NOTE = 'Trusted: clang AST. Not covered: the numeric clause reciprocal(d) == floor(2^(63+bitlen d)/d) and fast == portable.'
-EXPLANATION = 'RCP-NOOP evaluated on the IMUL_RCP decoder block and on h_IMUL_RCP of each JIT back-end; RCP-USE lists which reciprocal routine each engine calls. RCP-PURE on the LLVM IR of reciprocal.c; LW-SIB for the three back-ends.'
+EXPLANATION = ('RCP-NOOP evaluated on the IMUL_RCP decoder block and on h_IMUL_RCP of each JIT back-end; RCP-USE lists which reciprocal routine each engine calls. RCP-PURE on the LLVM IR of reciprocal.c; LW-SIB for the three back-ends.'
+         ' RVV-RCPPOOL, GEN-RESET x3, X86-HSEM.')
 
 
 def rule_rcp_pure(ctx, R):
